@@ -13,6 +13,7 @@ PIPELINES = {
         "mc": [{"module": "MC_Cert", "workers": 8}],
         "drivers": [
             {"name": "cases", "cmd": ["cert-cases", "{cases}", "{out}"], "cases": "MC_Cert"},
+            {"name": "random", "cmd": ["cert-random", "{out}", "{nrandom}"], "random": True},
         ],
         "min_events": 1000,
     },
